@@ -1111,6 +1111,24 @@ func registerLibModels() {
 		r, n := c.decodeRune(c.sliceBytes(a[0].(SliceVal)))
 		return TupleVal{r, c.goInt(int64(n))}
 	}
+	m["(*strings.asciiSet).contains"] = func(c *Ctx, fn *ssa.Function, a []Value) Value {
+		// the set is a concrete [8]uint32 bitmap; membership of a (possibly symbolic) byte as a disjunction
+		arr := a[0].(Ptr).load().(*ArrayVal)
+		ch := a[1].(*Term)
+		var alts []*Term
+		for w := 0; w < 8; w++ {
+			word, ok := c.constInt(arr.E[w].(*Term), false)
+			if !ok {
+				c.unsupported("symbolic asciiSet")
+			}
+			for b := 0; b < 32; b++ {
+				if word>>uint(b)&1 == 1 {
+					alts = append(alts, Eq(ch, c.byteT(byte(w*32+b))))
+				}
+			}
+		}
+		return Or(alts...)
+	}
 	m["strings.Join"] = func(c *Ctx, fn *ssa.Function, a []Value) Value {
 		sl := a[0].(SliceVal)
 		sep := a[1].(*StrVal)
